@@ -1,5 +1,9 @@
 (* C15 — text of the echo model for the correspondence check: the tokens of `pp e` in the
    format of numbat::verif::syntax::dump_tokens. *)
-From NV Require Import Base.Show Syntax.Token Syntax.Ast Syntax.Exec Syntax.Grammar Syntax.TypedPrinter.
+From NV Require Import Base.Show Syntax.Token Syntax.Ast Syntax.StmtAst Syntax.Exec Syntax.Grammar Syntax.TypedPrinter
+  Syntax.TypeGrammar Syntax.StmtGrammar Syntax.DefEcho.
 
 Definition show_pp (e : texpr) : string := join " " (map show_token (pp e) ++ ["Eof"]).
+
+(* the tokens of the echo of a definition (decorators, let / unit / fn) *)
+Definition show_def (e : edef) : string := join " " (map show_token (pp_def e) ++ ["Eof"]).
